@@ -1190,7 +1190,8 @@ class XsdUnion(XsdSimpleType):
             else:
                 if patterns and isinstance(obj, (str, bytes)):
                     try:
-                        patterns(mt.normalize(obj))
+                        for pattern in patterns:
+                            pattern(mt.normalize(obj))
                     except XMLSchemaValidationError as err:
                         context.validation_error(validation, self, err)
                 return result
@@ -1201,7 +1202,8 @@ class XsdUnion(XsdSimpleType):
             result = xsd_type.raw_decode(obj, validation, context)
             if patterns and isinstance(obj, (str, bytes)):
                 try:
-                    patterns(xsd_type.normalize(obj))
+                    for pattern in patterns:
+                        pattern(xsd_type.normalize(obj))
                 except XMLSchemaValidationError as err:
                     context.validation_error(validation, self, err)
             return result
@@ -1224,7 +1226,8 @@ class XsdUnion(XsdSimpleType):
             else:
                 if patterns and isinstance(result, str):
                     try:
-                        patterns(mt.normalize(result))
+                        for pattern in patterns:
+                            pattern(mt.normalize(result))
                     except XMLSchemaValidationError as err:
                         context.validation_error(validation, self, err)
                 return result
@@ -1235,7 +1238,8 @@ class XsdUnion(XsdSimpleType):
             result = xsd_type.raw_encode(obj, validation, context)
             if patterns and isinstance(result, str):
                 try:
-                    patterns(result)
+                    for pattern in patterns:
+                        pattern(result)
                 except XMLSchemaValidationError as err:
                     context.validation_error(validation, self, err)
             return result
@@ -1459,7 +1463,10 @@ class XsdAtomicRestriction(XsdAtomic):
                     except XMLSchemaValidationError as err:
                         context.validation_error(validation, self, err)
                 elif context.patterns is None:
-                    context.patterns = self.patterns
+                    context.patterns = [self.patterns]
+                else:
+                    # patterns of different derivation steps are all in force
+                    context.patterns.append(self.patterns)
 
         if isinstance(self.base_type, XsdSimpleType):
             base_type = self.base_type
@@ -1502,8 +1509,11 @@ class XsdAtomicRestriction(XsdAtomic):
             obj = self.normalize(obj)
 
         if self.patterns:
-            if context.patterns is None and isinstance(self.primitive_type, XsdUnion):
-                context.patterns = self.patterns
+            if isinstance(self.primitive_type, XsdUnion):
+                if context.patterns is None:
+                    context.patterns = [self.patterns]
+                else:
+                    context.patterns.append(self.patterns)
 
         result = base_type.raw_encode(obj, validation, context)
 
